@@ -20,6 +20,7 @@ type c12Base struct {
 	Expires string     `json:"expires,omitempty"`
 	LastMod string     `json:"last_mod,omitempty"`
 	OnCond  string     `json:"on_cond"` // "304" | "503" | "200"
+	CC304   []string   `json:"cc_304,omitempty"` // directives the 304 carries (re-spelled like the response's)
 	Steps   []c12Step  `json:"steps"`
 }
 
@@ -52,6 +53,13 @@ func c12Bases() []c12Base {
 	add("r:must-understand", 299, []string{"must-understand", "max-age=10"}, "304", s(0), s(1))
 	add("r:must-understand+no-store", 200, []string{"must-understand", "no-store", "max-age=10"}, "304", s(0), s(1))
 	add("r:s-maxage-ignored", 200, []string{"s-maxage=1000", "max-age=10"}, "304", s(0), s(5), s(20))
+	// a 304 that carries (new) directives: they replace the stored ones
+	out = append(out,
+		c12Base{Name: "304:max-age+no-cache", Status: 200, RespCC: []string{"max-age=0"}, LastMod: "-1000", OnCond: "304", CC304: []string{"max-age=60", "no-cache"}, Steps: []c12Step{s(0), s(1), s(1), s(1)}},
+		c12Base{Name: "304:private+max-age", Status: 200, RespCC: []string{"max-age=0"}, LastMod: "-1000", OnCond: "304", CC304: []string{"private", "max-age=60"}, Steps: []c12Step{s(0), s(1), s(1), s(70)}},
+		c12Base{Name: "304:max-age+must-revalidate", Status: 200, RespCC: []string{"max-age=0"}, LastMod: "-1000", OnCond: "304", CC304: []string{"max-age=10", "must-revalidate"}, Steps: []c12Step{s(0), s(1), s(5), s(20, "max-stale")}},
+		c12Base{Name: "304:no-store", Status: 200, RespCC: []string{"max-age=0"}, LastMod: "-1000", OnCond: "304", CC304: []string{"max-age=60", "no-store"}, Steps: []c12Step{s(0), s(1), s(1)}},
+	)
 	// request directives against a plain stored response
 	plain := []string{"max-age=100"}
 	add("q:no-cache", 200, plain, "304", s(0), s(5, "no-cache"), s(1))
@@ -128,7 +136,8 @@ func rewriteCC(dirs []string, rw c12Rewrite) []string {
 		}
 	}
 	if has("extensions") {
-		exts := []string{"x-no-store", "no-storex", `ext="a, no-store"`, "ext=no-cache", "foo=bar", `ext="x, max-age=0, no-cache"`, "max-agex=0", "xmax-age=0", `community="UCI"`}
+		exts := []string{"x-no-store", "no-storex", `ext="a, no-store"`, "ext=no-cache", "foo=bar", `ext="x, max-age=0, no-cache"`, "max-agex=0", "xmax-age=0", `community="UCI"`,
+			`ext="a\\"`, `ext="\\"`, `ext="a\"b, no-store"`, `ext="\", no-store, \""`, `ext="\\\\"`, `ext=""`}
 		n := 1 + r.IntN(3)
 		for k := 0; k < n; k++ {
 			pos := r.IntN(len(ds) + 1)
@@ -170,7 +179,11 @@ func c12Vector(b *c12Base, respCC func([]string) []string, reqCC func([]string) 
 		if uc.Conditional() {
 			switch b.OnCond {
 			case "304":
-				return Render(&RespSpec{Status: 304, ETag: `"e"`}, uc.Enter, uc.Serial)
+				rs := RespSpec{Status: 304, ETag: `"e"`}
+				if len(b.CC304) > 0 {
+					rs.CC = respCC(b.CC304)
+				}
+				return Render(&rs, uc.Enter, uc.Serial)
 			case "503":
 				return Render(&RespSpec{Status: 503, BodySize: 3}, uc.Enter, uc.Serial)
 			}
